@@ -180,6 +180,20 @@ Section Chain.
     end.
 End Chain.
 
+(* one stage may be a byte pipe: frames are written with a self-delimiting encoding and read back
+   one by one; [read_all] is what a reader gets out of a byte string (a truncated frame is
+   dropped, as read_network_message fails at EOF) *)
+Section BytePipe.
+  Context {F : Type}.
+  Variable enc : F -> list N.
+  Variable dec : list N -> option (F * list N).
+  Fixpoint read_all (fuel : nat) (bs : list N) : list F :=
+    match fuel with
+    | O => []
+    | S k => match dec bs with Some (f, rest) => f :: read_all k rest | None => [] end
+    end.
+End BytePipe.
+
 (* ====================================================================== *)
 (* Part 3: the two-node system                                             *)
 
@@ -249,7 +263,7 @@ Inductive label :=
 | LHopB (i : nat)
 | LDeliverB                              (* X's session handles the next frame *)
 | LSpawn (pid : N) | LExit (pid : N) | LJoin (pid g : N) | LLeave (pid g : N)   (* on Y *)
-| LClose (k : nat).                      (* connection loss; k entry stages of X -> Y are lost *)
+| LClose (k : nat).                      (* connection loss; all but the k oldest frames X -> Y are lost *)
 
 Definition port_used (st : sys) (port : N) : bool :=
   existsb (fun c => N.eqb (snd c) port) (calls st).
@@ -435,11 +449,13 @@ Section Sys.
     else st.
 
   (* the session on X stops: every proxy (its children) stops and leaves its groups, nothing
-     is read or written any more; frames that had already left the k entry stages may still
-     be delivered on Y *)
+     is read or written any more; of the frames on their way to Y the k oldest may still be
+     delivered (any k: a cut at any byte offset of the pipe, frames already read but discarded
+     by a stopping session, ... — always a suffix of what is in flight is lost); what remains
+     is kept as one stage, nothing new can enter *)
   Definition do_close (st : sys) (k : nat) : sys :=
     mkSys (fun pid => if x_was (px st pid) then px_dead else px_none)
-          (cut k (fwd st)) (map (fun _ => []) (bwd st)) [] (pool st) (tg st) false (aband st)
+          [firstn k (flat (fwd st))] (map (fun _ => []) (bwd st)) [] (pool st) (tg st) false (aband st)
           (sent st) (dlv st) (ins st) (calls st) (res st) (fun _ => true).
 
   Definition step (st : sys) (l : label) : sys :=
